@@ -1349,13 +1349,16 @@ fn rebuild_value(
     } else {
         // A first line starting with '#' has to stay on the line of the field name:
         // on a line of its own it would read as a comment.
-        let first_is_hash = tokens
+        let first = tokens
             .iter()
-            .find(|(k, _t)| *k != NEWLINE && *k != WHITESPACE)
-            .map(|(_k, t)| t.starts_with('#'))
-            .unwrap_or(false);
+            .find(|(k, _t)| *k != NEWLINE && *k != WHITESPACE);
+        // A comment in front of the first text, on the other hand, has to stay on a line
+        // of its own: on the line of the field name it would read as the value.
+        let first_is_comment = first.map(|(k, _t)| *k == COMMENT).unwrap_or(false);
+        let first_is_hash =
+            !first_is_comment && first.map(|(_k, t)| t.starts_with('#')).unwrap_or(false);
         // Insert a leading newline if the value is multi-line and immediate_empty_line is set
-        if immediate_empty_line && has_newline && !first_is_hash {
+        if first_is_comment || (immediate_empty_line && has_newline && !first_is_hash) {
             builder.token(NEWLINE.into(), "\n");
             last_was_newline = true;
         } else {
